@@ -145,14 +145,37 @@ class Gen:
         return out
 
     def cons(self, force: bool = False):
+        """parameter constraints of every relation kind the constructor accepts (<, <=, >, >=, ==, Eq, Ne; strings and
+        sympy relations; compound expressions on both sides). Satisfied by the regular assignments, violated by 5000."""
         if not force and self.rng.random() < 0.6:
             return None
+        import sympy
         out = []
         for _ in range(self.rng.randrange(1, 3)):
             kind = self.rng.choice('dvn')
-            p = self.par(kind)
-            out.append(self.rng.choice(['{p} < 1000', '{p} > -1000', '{p} <= {q} + 2000', '{p}*2 < 2500']).format(
-                p=p, q=self.par(kind)))
+            p, q = self.par(kind), self.par(kind)
+            form = self.rng.choice(['{p} < 1000', '{p} > -1000', '{p} <= {q} + 2000', '{p}*2 < 2500',
+                                    'Ne({p}, 5000)', 'Ne({p}*2, {q} + 7000)', 'Ne({p} + {q}, -3000)',
+                                    '{p}*2 + 1 <= {q}**2 + 5000', '{p} >= -{q} - 3000', '-{p} > -1000 - {q}/3',
+                                    '{p}*2 == {q} + 3', 'Eq({p}, {q} + 1)', 'sym-ne', 'sym-le', 'sym-eq'])
+            if p == q and ('==' in form or 'Eq' in form or form == 'sym-eq'):
+                form = '{p} < 1000'            # (an equation sympy decides on the spot is PF-C10h; a one-variable equation
+                #                                makes TablePT's consistency check raise TypeError - not a storage matter)
+            if form == 'sym-ne':
+                c = sympy.Ne(sympy.Symbol(p) * 3, sympy.Symbol(q) - 9000)
+                self.count('with:constraint-ne')
+            elif form == 'sym-le':
+                c = sympy.Le(sympy.Symbol(p), sympy.Symbol(q) ** 2 + 4000)
+            elif form == 'sym-eq':
+                c = sympy.Eq(sympy.Symbol(p) * 2, sympy.Symbol(q) + 5)
+                self.count('with:constraint-eq')
+            else:
+                c = form.format(p=p, q=q)
+                if 'Ne(' in form:
+                    self.count('with:constraint-ne')
+                if '==' in form or 'Eq(' in form:
+                    self.count('with:constraint-eq')
+            out.append(c)
         self.count('with:constraints')
         return out
 
